@@ -52,7 +52,7 @@ def model_runs(quick):
                 ("str2", cfg_text(maxn=2, maxlen=2, pseudos="P0")),
                 ("metrics", cfg_text(maxn=2, maxlen=2, metrickinds=("wlev", "lendiff"), pseudos="P0", edgemax=2)),
                 ("two", cfg_text(maxn=2, maxn2=2, maxlen=1, edgemax=2, pseudos="P3")),
-                ("sample", cfg_text(maxn=4, maxlen=1, edgemax=1, maxedges=2, pseudos="P0", maxseqs=(2, 3))),
+                ("sample", cfg_text(maxn=3, maxlen=2, edgemax=2, maxedges=3, pseudos="P0", maxseqs=(2,))),
                 ("tcr", cfg_text(maxn=2, maxlen=1, edgemax=2, pseudos="P0", elemkinds=("A", "B", "AB")))]
     return [("str", cfg_text(maxn=4, maxlen=2, edgemax=3, maxedges=4)),
             ("metrics", cfg_text(maxn=3, maxlen=2, metrickinds=("wlev", "lendiff"), pseudos="P3")),
@@ -180,13 +180,18 @@ def make_sessions(ctx, n):
             N = ctx.rng.randint(2, 30)
             ms = ctx.rng.choice([0, 2, 5, 10, 40])
             seqs = nc.repertoire(ctx.rng, N, maxlen=10)
+            if sid % 2:
+                seqs = sorted(set(seqs)) + [f"CAS{i}" for i in range(3)]       # all distinct
+                N = len(seqs)
             two = ctx.rng.random() < 0.4
             seqs2 = nc.repertoire(ctx.rng, ctx.rng.randint(1, 30), maxlen=10) if two else None
-            ev = dict(op="Sampled", raised=False, n=N, n2=len(seqs2) if two else 0, ms=ms, total=-1)
+            ev = dict(op="Sampled", raised=False, n=N, n2=len(seqs2) if two else 0, ms=ms, total=-1, zero=0, distinct=False)
             try:
                 np.random.seed(sid)
-                h = prs.pcDelta(seqs, seqs2, bins=[0, 1000], normalize=False, maxseqs=ms or None)
+                h = prs.pcDelta(seqs, seqs2, bins=[0, 1, 1000], normalize=False, maxseqs=ms or None)
                 ev["total"] = int(np.sum(h))
+                ev["zero"] = int(h[0])
+                ev["distinct"] = (len(set(seqs)) == len(seqs)) and not two
             except Exception as e:      # noqa: BLE001
                 ev.update(raised=True, exc=f"{type(e).__name__}: {e}"[:200])
             out.append(dict(sid=sid, inp=dict(ek="str", seqs=[[0], [0]], two=False, seqs2=[], mk="default", edges=[0, 1], norm=False, c=[0, 1], ms=0), events=[ev]))
